@@ -357,6 +357,163 @@ theorem good_reflFitsP (r : Rec) (base : Name) (cs : Caches) :
   | diverge => exact .ret rfl
   | depth => exact .ret rfl
 
+
+/-! ### the association / implementation / relationship programs -/
+section assoc
+open Hs.NsA
+
+@[simp] theorem Cfg.x_ns (cfg : Cfg) : cfg.x.ns = cfg.ns := rfl
+@[simp] theorem Cfg.x_xd (cfg : Cfg) : cfg.x.xd = cfg.xd := rfl
+
+theorem good_findReciprocalP (p r : Name) (cs : Caches) :
+    Good cfg (fun a => a = findReciprocal cfg.fuel cfg.x p r) cs (findReciprocalP cfg.fuel cfg.x p r) := by
+  unfold findReciprocalP findReciprocal
+  simp only [Cfg.x_ns, Cfg.x_xd]
+  refine good_bind (good_inhG (cfg := cfg) p cs) ?_
+  intro a ha cs'
+  subst ha
+  cases inheritance cfg.fuel cfg.ns p <;> exact .ret rfl
+
+theorem good_associationsP (p a : Name) (cs : Caches) :
+    Good cfg (fun r => r = associations cfg.fuel cfg.x p a) cs (associationsP cfg.fuel cfg.x p a) := by
+  unfold associationsP associations
+  simp only [Cfg.x_xd]
+  cases getX cfg.xd a with
+  | none => exact .ret rfl
+  | some ad =>
+    dsimp only
+    by_cases h1 : (!isAssoc ad) = true
+    · simp only [h1, if_true]; exact .ret rfl
+    · simp only [h1]
+      by_cases h2 : (!ad.has nComputed) = true
+      · simp only [h2, if_true]
+        cases getX cfg.xd p with
+        | none => exact .ret rfl
+        | some pd =>
+          dsimp only
+          cases pd.getList a <;> exact .ret rfl
+      · simp only [h2]
+        cases ad.getSymbol nReciprocalOf with
+        | none => exact .ret rfl
+        | some r =>
+          dsimp only
+          by_cases h3 : defined cfg.x.ns.defs r = true
+          · simp only [h3, if_true]; exact good_findReciprocalP p r cs
+          · simp only [h3]; exact .ret rfl
+
+theorem good_supersOfAllP : ∀ (ds acc : List Name) (cs : Caches),
+    Good cfg (fun r => r = supersOfAll cfg.fuel cfg.ns ds acc) cs (supersOfAllP cfg.fuel cfg.ns ds acc) := by
+  intro ds
+  induction ds with
+  | nil => intro acc cs; exact .ret rfl
+  | cons d ds ih =>
+    intro acc cs
+    simp only [supersOfAllP]
+    refine good_bind (good_allSupP d cs) ?_
+    intro a ha cs'
+    subst ha
+    simp only [supersOfAll]
+    cases allSupertypesOf cfg.fuel cfg.ns d with
+    | ok all => exact ih _ cs'
+    | err => exact .ret rfl
+    | panic => exact .ret rfl
+    | diverge => exact .ret rfl
+    | depth => exact .ret rfl
+
+theorem good_implementationP (s : Name) (cs : Caches) :
+    Good cfg (fun r => r = implementation cfg.fuel cfg.x s) cs (implementationP cfg.fuel cfg.x s) := by
+  unfold implementationP implementation
+  simp only [Cfg.x_ns, Cfg.x_xd]
+  refine good_bind (good_supersOfAllP (cfg := cfg) _ _ cs) ?_
+  intro a ha cs'
+  subst ha
+  cases supersOfAll cfg.fuel cfg.ns ((conjunctsDefs cfg.ns s).filter (fun n => !isFeature n)) [] <;> exact .ret rfl
+
+theorem good_fitsTermP (term : Option Name) (s : Name) (cs : Caches) :
+    Good cfg (fun r => r = fitsTermL cfg.fuel cfg.ns term s) cs (fitsTermP cfg.fuel cfg.ns term s) := by
+  cases term with
+  | none => exact .ret rfl
+  | some tm => exact good_fitsP s tm cs
+
+theorem good_relInnerP (recs : List RecX) (rel : Name) (recip term : Option Name) (tr : Bool) (id : Option Name) :
+    ∀ (ts : List SubjTag) (q : List Name) (rt : Option Name) (cs : Caches),
+      Good cfg (fun r => r = relInnerL cfg.fuel cfg.x recs rel recip term tr id ts q rt) cs
+        (relInnerP cfg.fuel cfg.x recs rel recip term tr id ts q rt) := by
+  intro ts
+  induction ts with
+  | nil => intro q rt cs; exact .ret rfl
+  | cons t rest ih =>
+    intro q rt cs
+    simp only [relInnerP, relInnerL, Cfg.x_ns, Cfg.x_xd]
+    split
+    · -- the relationship value is a Symbol
+      rename_i s hs
+      refine good_bind (good_fitsTermP (cfg := cfg) term s cs) ?_
+      intro fr hfr cs'
+      subst hfr
+      cases fitsTermL cfg.fuel cfg.ns term s with
+      | ok f =>
+        dsimp only
+        cases hd : relDecide recs tr t q _ f with
+        | inl st => exact .ret rfl
+        | inr p =>
+          obtain ⟨q', rt'⟩ := p
+          exact ih _ _ cs'
+      | err => exact .ret rfl
+      | panic => exact .ret rfl
+      | diverge => exact .ret rfl
+      | depth => exact .ret rfl
+    · exact ih _ _ cs
+
+theorem good_relLoopP (recs : List RecX) (rel : Name) (recip term : Option Name) (tr : Bool) :
+    ∀ (lf : Nat) (s : RecX) (q : List Name) (rt : Option Name) (cs : Caches),
+      Good cfg (fun r => r = relLoopL cfg.fuel cfg.x recs rel recip term tr lf s q rt) cs
+        (relLoopP cfg.fuel cfg.x recs rel recip term tr lf s q rt) := by
+  intro lf
+  induction lf with
+  | zero => intro s q rt cs; exact .ret rfl
+  | succ n ih =>
+    intro s q rt cs
+    simp only [relLoopP, relLoopL]
+    refine good_bind (good_relInnerP recs rel recip term tr s.id s.tags q rt cs) ?_
+    intro a ha cs'
+    subst ha
+    cases relInnerL cfg.fuel cfg.x recs rel recip term tr s.id s.tags q rt with
+    | ok st =>
+      cases st with
+      | ret b => exact .ret rfl
+      | done => exact .ret rfl
+      | next s' q' rt' => exact ih _ _ _ cs'
+    | err => exact .ret rfl
+    | panic => exact .ret rfl
+    | diverge => exact .ret rfl
+    | depth => exact .ret rfl
+
+theorem good_hasRelationshipP (lf : Nat) (recs : List RecX) (rel : Name) (term target : Option Name) (s : RecX)
+    (cs : Caches) :
+    Good cfg (fun r => r = hasRelationshipL cfg.fuel lf cfg.x recs rel term target s) cs
+      (hasRelationshipP cfg.fuel lf cfg.x recs rel term target s) := by
+  unfold hasRelationshipP hasRelationshipL
+  simp only [Cfg.x_ns, Cfg.x_xd]
+  cases getX cfg.xd rel with
+  | none => exact .ret rfl
+  | some rd =>
+    dsimp only
+    refine good_bind (good_inhG (cfg := cfg) rel cs) ?_
+    intro a ha cs'
+    subst ha
+    cases inheritance cfg.fuel cfg.ns rel with
+    | ok inh =>
+      dsimp only
+      by_cases hc : (!inh.contains nRelationship) = true
+      · simp only [hc, if_true]; exact .ret rfl
+      · simp only [hc]; exact good_relLoopP recs rel _ term _ lf s [] target cs'
+    | err => exact .ret rfl
+    | panic => exact .ret rfl
+    | diverge => exact .ret rfl
+    | depth => exact .ret rfl
+end assoc
+
 /-- every query program returns the cache-free answer -/
 theorem good_queryP (q : Query) (cs : Caches) :
     Good cfg (fun a => a = pureAns cfg q) cs (queryP cfg q) := by
@@ -367,6 +524,12 @@ theorem good_queryP (q : Query) (cs : Caches) :
   | fits a b => exact good_bind (good_fitsP a b cs) (fun x hx cs' => .ret (by simp [pureAns, hx]))
   | reflect r => exact good_bind (good_reflectP r cs) (fun x hx cs' => .ret (by simp [pureAns, hx]))
   | reflFits r b => exact good_bind (good_reflFitsP r b cs) (fun x hx cs' => .ret (by simp [pureAns, hx]))
+  | assoc p a => exact good_bind (good_associationsP p a cs) (fun x hx cs' => .ret (by simp [pureAns, hx]))
+  | impl k => exact good_bind (good_implementationP k cs) (fun x hx cs' => .ret (by simp [pureAns, hx]))
+  | fitsRoot w k =>
+    exact good_bind (good_fitsP k (NsA.rootName w) cs) (fun x hx cs' => .ret (by simp [pureAns, hx, NsA.fitsRoot, Cfg.x]))
+  | rel recs r term target s =>
+    exact good_bind (good_hasRelationshipP _ recs r term target s cs) (fun x hx cs' => .ret (by simp [pureAns, hx]))
 
 /-- a thread's whole query sequence returns the cache-free answers, in order -/
 theorem good_runQs : ∀ (qs : List Query) (cs : Caches),
